@@ -213,3 +213,28 @@ func VerifSVGViewBoxValues(n int) {
 	}
 	vReach("end")
 }
+
+var verifForeignDocs = []string{
+	"<p>a<br/><b>c</b> <i>d</i><pre>x   y</pre></p>",
+	"<div> a  b <img src=\"u\"/> <span> c </span></div>",
+	"<body xmlns=\"http://www.w3.org/1999/xhtml\"><hr/><p title=\" t \">x  y</p></body>",
+	"<foreignObject><p> q </p></foreignObject><p> r  s </p>",
+}
+
+// VerifSVGForeignObject (C05): the content of a foreignObject (another XML vocabulary, e.g. XHTML, where white space
+// and attribute values follow other rules) is copied verbatim, also behind empty-element tags inside it.
+func VerifSVGForeignObject(n int) {
+	inner := verifForeignDocs[vChoice("doc", len(verifForeignDocs))]
+	in := []byte("<svg><foreignObject width=\"1\">" + inner + "</foreignObject><g> </g></svg>")
+	var params map[string]string
+	if vBool("inlineparam") {
+		params = map[string]string{"inline": "1"}
+	}
+	w := &vWriter{}
+	err := (&Minifier{}).Minify(minify.New(), w, &vReader{b: in}, params)
+	vReach("after-call")
+	vOutput("out", w.buf)
+	vAssert(err == nil, "accepted")
+	vAssert(rsIndex(w.buf, ">"+inner+"</foreignObject>") >= 0, "foreignObject content copied verbatim")
+	vReach("end")
+}
